@@ -45,6 +45,11 @@ type Scenario struct {
 	Strat   Strategy `json:"strategy"`
 	Segs    []Seg    `json:"schedule,omitempty"`
 
+	// PostOrder selects the order of the solo re-runs after the concurrent
+	// phase (0: preempted task first, then reverse, then forward; 1: reverse
+	// first; 2: forward first).
+	PostOrder int `json:"post_order,omitempty"`
+
 	C11 *C11Scn `json:"c11,omitempty"`
 	C20 *C20Scn `json:"c20,omitempty"`
 	C05 *C05Scn `json:"c05,omitempty"`
@@ -114,6 +119,7 @@ type RunResult struct {
 	Counters      map[string]int64
 	SitePairs     map[[2]int]struct{}
 	Sample        interface{}
+	SweepCands    []Strategy // systematic sweep candidates (only when the solo profile contains synchronising statements)
 }
 
 // Stats accumulates over the runs of one worker and is merged across workers.
